@@ -297,6 +297,14 @@ C14_CONFIGS = [
     ("strict", ["strict-parser"], False),
     ("nodefault", [], True),
 ]
+# thorough only: the remaining ways the default features can be taken apart, and two combinations
+C14_EXTRA = [
+    ("nd_alloc", ["alloc"], True),
+    ("nd_easy", ["easy-functions"], True),
+    ("nd_std", ["std"], True),
+    ("unsafe_strict", ["unsafe", "strict-parser"], False),
+    ("unchecked_fnv", ["unchecked", "opt-reduce-fnv-table"], False),
+]
 C14_SPEC = {"c14gen": ("TraceGen.tla", "TraceGen.cfg"), "c14cmp": ("TraceCmp.tla", "TraceCmp.cfg"),
             "c14obj": ("TraceObj.tla", "TraceObj.cfg"), "c14hash": ("TraceHash.tla", "TraceHash.cfg")}
 
@@ -329,6 +337,10 @@ def _canon(ev, strict_cfg):
     if strict_cfg and (ev.get("ev") in ("parse", "op", "hnew")):
         return None          # parse results legitimately differ under the strict parser; histories diverge after a parse
 
+    if strict_cfg and ev.get("ev") == "norm":
+        # the strict parser refuses the two short text routes when the raw block hash 2 exceeds 32 (see EvNorm)
+        ev = dict(ev, routes={k: v for k, v in ev.get("routes", {}).items() if k not in ("short_parse", "short_from_bytes")})
+
     def strip(x):
         if isinstance(x, dict):
             return {k: strip(v) for k, v in x.items() if not (k in ("str", "unchecked", "uobs", "unit") or k.startswith("u_"))}
@@ -340,7 +352,7 @@ def _canon(ev, strict_cfg):
 
 def check_c14(pid, tier):
     v = Verdict(pid, tier)
-    profiles = [("release", C14_CONFIGS), ("debug", C14_CONFIGS if tier == "thorough" else C14_CONFIGS[:1])]
+    profiles = [("release", C14_CONFIGS + (C14_EXTRA if tier == "thorough" else [])), ("debug", C14_CONFIGS if tier == "thorough" else C14_CONFIGS[:1])]
     runs = []
     for prof, cfgs in profiles:
         for name, feats, nd in cfgs:
@@ -357,7 +369,7 @@ def check_c14(pid, tier):
         normal, strict = [], []
         for name, prof, out in runs:
             fs = sorted(glob.glob(os.path.join(out, prefix + "_*.ndjson")))
-            (strict if (name == "strict" and prefix == "c14obj") else normal).extend(fs)
+            (strict if ("strict" in name.split("_") and prefix == "c14obj") else normal).extend(fs)
         for files, c in ((normal, cfg), (strict, "TraceObj_strict.cfg")):
             if not files:
                 continue
@@ -377,7 +389,7 @@ def check_c14(pid, tier):
     for name, prof, out in runs[1:]:
         for bf in sorted(glob.glob(os.path.join(base, "*.ndjson"))):
             of = os.path.join(out, os.path.basename(bf))
-            sc = name == "strict"
+            sc = "strict" in name.split("_")
             a = [x for x in (_canon(e, sc) for e in read_events(bf)) if x is not None]
             b = [x for x in (_canon(e, sc) for e in read_events(of)) if x is not None]
             if a != b:
